@@ -13,6 +13,7 @@ func init() {
 	comps["atomicvalue"] = driveAtomicValue
 	comps["atomicvalue-stress"] = stressAtomicValue
 	comps["pool-stress"] = stressPool
+	comps["atomicvalue-count"] = countAtomicValue
 }
 
 type avS struct{ A, B int } // a comparable struct type, to exercise CompareAndSwap on non-scalar values
@@ -199,6 +200,59 @@ func stressPool(plan []M, out *Out, _ []string) {
 				}
 			} else {
 				out.Emit(M{"ev": "round", "round": r})
+			}
+		}
+	}
+}
+
+// Large free-running workloads whose outcome can be checked in linear time (necessary conditions of atomicity):
+//
+//	swapchain: every goroutine Swaps in its own unique tokens; in any atomic execution every value (the initial zero
+//	           value and every token but the last one standing) is returned by exactly one Swap;
+//	casinc:    goroutines increment through Load + CompareAndSwap(x, x+1); the final value is start + #successes.
+func countAtomicValue(plan []M, out *Out, _ []string) {
+	for _, p := range plan {
+		kind, nt, nops, rounds := str(p, "kind"), num(p, "threads"), num(p, "ops"), num(p, "rounds")
+		for r := 0; r < rounds; r++ {
+			v := new(sync2.AtomicValue[int])
+			rets := make([][]int, nt)
+			succ := make([]int, nt)
+			if kind == "casinc" {
+				v.Store(1)
+			}
+			var wg sync.WaitGroup
+			start := make(chan struct{})
+			for t := 0; t < nt; t++ {
+				wg.Add(1)
+				go func(t int) {
+					defer wg.Done()
+					<-start
+					for i := 1; i <= nops; i++ {
+						if kind == "swapchain" {
+							rets[t] = append(rets[t], v.Swap((t+1)*100000+i))
+						} else {
+							x := v.Load()
+							if v.CompareAndSwap(x, x+1) {
+								succ[t]++
+							}
+						}
+					}
+				}(t)
+			}
+			close(start)
+			wg.Wait()
+			if kind == "swapchain" {
+				all := []int{}
+				for _, rs := range rets {
+					all = append(all, rs...)
+				}
+				out.Emit(M{"ev": "swapchain", "threads": nt, "ops": nops, "rets": all, "final": v.Load()})
+			} else {
+				total := 0
+				for _, c := range succ {
+					total += c
+				}
+				out.Emit(M{"ev": "casinc", "start": 1, "succ": total, "final": v.Load()})
 			}
 		}
 	}
